@@ -331,7 +331,14 @@ static ares_status_t ares_qcache_insert_int(ares_qcache_t           *qcache,
 
   /* Look at SOA for NXDOMAIN for minimum */
   if (rcode == ARES_RCODE_NXDOMAIN) {
+    unsigned int minttl = ares_qcache_calc_minttl(qresp);
+
     ttl = ares_qcache_soa_minimum(qresp);
+    /* Records the response itself carries (a CNAME chain leading to the name
+     * that doesn't exist) must not be replayed beyond their own TTL either */
+    if (minttl < ttl) {
+      ttl = minttl;
+    }
   } else {
     ttl = ares_qcache_calc_minttl(qresp);
     /* Nothing in the response carries a usable TTL (NODATA: at most an SOA):
